@@ -110,7 +110,44 @@ def encode(pc, hints, goal, pool, fresh, stage=3):
 
     for h in hyps:
         enc.assertions.append(hyp_clause(h))
+    # unfold defined predicates at their occurrences:  P(t) ==> body(t)
+    if dsl.DEFS:
+        seen = set()
+        for _ in range(2):
+            apps = []
+            stack = list(enc.assertions)
+            visited = set()
+            while stack:
+                e = stack.pop()
+                if not z3.is_expr(e) or e.get_id() in visited:
+                    continue
+                visited.add(e.get_id())
+                if z3.is_quantifier(e):
+                    stack.append(e.body())
+                    continue
+                if z3.is_app(e):
+                    if e.decl().name() in dsl.DEFS and e.get_id() not in seen and not _has_bound_var(e):
+                        seen.add(e.get_id())
+                        apps.append(e)
+                    stack.extend(e.children())
+            if not apps:
+                break
+            for app in apps:
+                body = dsl.DEFS[app.decl().name()](*app.children())
+                for c in dsl.flat(dsl.when(app, body)):
+                    enc.assertions.append(hyp_clause(c))
     return enc
+
+
+def _has_bound_var(e):
+    stack = [e]
+    while stack:
+        x = stack.pop()
+        if z3.is_var(x):
+            return True
+        if z3.is_app(x):
+            stack.extend(x.children())
+    return False
 
 
 def seq_axioms(assertions, rounds=3):
